@@ -71,6 +71,28 @@ fn run_uc(ctx: &RunCtx) -> RunOut {
         drop(k);
         h.check();
     }
+    // an earlier unauthenticated exchange on the same machine must not weaken the treatment of a later one
+    let prior = choose("prior_forgery", 3);
+    match prior {
+        1 => {
+            let mut k = h.knobs();
+            *k = hist::Knobs::default();
+            k.uc = Uc::NoUpdate;
+            k.forge = Some(Forge { at: 0, kind: 0, payload: 1, replay_of: 0 });
+            drop(k);
+            h.check();
+        }
+        2 => {
+            let mut k = h.knobs();
+            *k = hist::Knobs::default();
+            k.uc = Uc::Update;
+            k.doc = None;
+            k.forge = Some(Forge { at: 1, kind: 3, payload: 3, replay_of: 0 });
+            drop(k);
+            h.check();
+        }
+        _ => {}
+    }
     let restart_between = choose("restart_between", 2) == 1;
     if restart_between {
         h.restart();
@@ -305,7 +327,7 @@ fn parts(_tier: Tier) -> Vec<PartDef> {
         PartDef::new(
             "forged-update-check",
             Cfg::new("C02/forged-update-check"),
-            json!({"forgery_kinds": FORGE_KINDS, "payloads": FORGE_PAYLOADS, "positions": ["attempt 1", "attempt 2 after a transport failure"], "restart_before": [false, true],
+            json!({"forgery_kinds": FORGE_KINDS, "payloads": FORGE_PAYLOADS, "positions": ["attempt 1", "attempt 2 after a transport failure"], "restart_before": [false, true], "earlier_forgery_on_the_same_machine": ["none", "forged update check", "forged event report"],
                    "history": "genuine check (cohorts, day number, poll interval 30 s) then the forged one", "exploration": "full product"}),
             run_uc,
         ),
